@@ -272,7 +272,7 @@ func finish(rep *Report, known []knownFinding, seed int, start time.Time, evPath
 		}
 	}
 	var viol []Ob
-	var knownHit []string
+	knownHit := []string{}
 	discharged := 0
 	for i := range rep.Obs {
 		o := &rep.Obs[i]
